@@ -1,4 +1,5 @@
 import Properties.C16b
+import Properties.C14b
 /-!
 # C16 (continued) — one statement about the whole of `loadFile`: a file that loads physically contains the DATA extent
 that its own HEADER / keywords declare; hence every cut before the end of DATA is refused
@@ -102,6 +103,84 @@ theorem loaded_file_is_consistent (file : Bytes) (L : Loaded) (hL : loadFile fil
   obtain ⟨htext, db, de, tot, hoff, _, _, htot, hread⟩ := loadData_ok file h k L hd
   have hr := readData_ok file db.toNat de.toNat _ _ _ _ _ _ hread
   exact ⟨h, k, db, de, tot, hh, by rw [htext]; exact hoff, htot, hr.1, hr.2.2.2⟩
+
+/-- reading a whole TEXT-like segment that lies inside the first `n` bytes gives the same result on the file cut at `n` -/
+theorem readTextSeg_take (file : Bytes) (n : Nat) (b e : Int) (d : Option (Option Nat)) (supp : Bool)
+    (hb : 0 ≤ b) (hbe : b ≤ e) (hin : e + 1 ≤ n) :
+    readTextSeg (file.take n) b e d supp = readTextSeg file b e d supp := by
+  unfold readTextSeg
+  have hd : resolveDelim (file.take n) b d supp = resolveDelim file b d supp := by
+    unfold resolveDelim
+    cases d with
+    | none =>
+      cases supp with
+      | true => rfl
+      | false => simp only [Bool.false_eq_true, if_false]; rw [readAt_take file n b 1 hb (by omega) (by omega)]
+    | some c => cases c <;> rfl
+  rw [hd]
+  cases resolveDelim file b d supp with
+  | error err => rfl
+  | ok dd => exact readTextBody_take file n b e dd supp hb (by omega) hin
+
+/-- the merge of primary and supplemental keywords is the same on the cut file when the supplemental segment the primary keywords
+declare (if any) lies inside the first `n` bytes -/
+theorem mergeText_take (file : Bytes) (n : Nat) (h : Header) (t : Dict × Option Nat × Bool)
+    (hs : ∀ sb se, intKw t.1 "$BEGINSTEXT" = .ok sb → intKw t.1 "$ENDSTEXT" = .ok se → sb ≠ 0 → se ≠ 0 → 0 ≤ sb ∧ sb ≤ se ∧ se + 1 ≤ n) :
+    mergeText (file.take n) h t = mergeText file h t := by
+  obtain ⟨text0, delim, w0⟩ := t
+  unfold mergeText
+  simp only
+  split
+  · cases hsb : intKw text0 "$BEGINSTEXT" with
+    | error err => rfl
+    | ok sb =>
+      cases hse : intKw text0 "$ENDSTEXT" with
+      | error err => rfl
+      | ok se =>
+        simp only
+        split
+        · rename_i hnz
+          simp only [Bool.and_eq_true, bne_iff_ne, ne_eq] at hnz
+          obtain ⟨h1, h2, h3⟩ := hs sb se hsb hse hnz.1 hnz.2
+          rw [readTextSeg_take file n sb se _ true h1 h2 h3]
+        · rfl
+  · rfl
+
+/-- **A file cut before the end of the DATA segment that its own keywords declare cannot be loaded** (HEADER offsets zero or not):
+for an intact file that loads, every cut `n` that leaves the HEADER, the primary TEXT segment and the declared supplemental TEXT
+segment intact but ends before the declared end of DATA is refused. -/
+theorem cut_before_declared_data_end_fails (file : Bytes) (n : Nat) (L : Loaded) (hL : loadFile file = .ok L)
+    (h : Header) (t : Dict × Option Nat × Bool) (db de : Int) (h58 : 58 ≤ n)
+    (hh : parseHeader file = .ok h) (ht : readTextSeg file h.textBegin h.textEnd none false = .ok t)
+    (htb : 0 ≤ h.textBegin) (hte : h.textBegin ≤ h.textEnd) (htn : h.textEnd + 1 ≤ n)
+    (hs : ∀ sb se, intKw t.1 "$BEGINSTEXT" = .ok sb → intKw t.1 "$ENDSTEXT" = .ok se → sb ≠ 0 → se ≠ 0 → 0 ≤ sb ∧ sb ≤ se ∧ se + 1 ≤ n)
+    (hoff : dataOffsets h L.text = .ok (db, de)) (hcut : (n : Int) < de) :
+    ∃ err, loadFile (file.take n) = .error err := by
+  cases hL' : loadFile (file.take n) with
+  | error err => exact ⟨err, rfl⟩
+  | ok L' =>
+    exfalso
+    -- the keywords of the cut file are those of the intact file
+    obtain ⟨h1, t1, k1, hh1, ht1, hk1, hd1⟩ := loadFile_ok file L hL
+    obtain ⟨h2, t2, k2, hh2, ht2, hk2, hd2⟩ := loadFile_ok _ L' hL'
+    rw [hh] at hh1; cases hh1
+    rw [parseHeader_take file n h58, hh] at hh2; cases hh2
+    rw [ht] at ht1; cases ht1
+    rw [readTextSeg_take file n h.textBegin h.textEnd none false htb hte htn, ht] at ht2; cases ht2
+    obtain ⟨w1, hm1⟩ := FlowCal.C14.loadKeywords_text file h t k1 hk1
+    obtain ⟨w2, hm2⟩ := FlowCal.C14.loadKeywords_text _ h t k2 hk2
+    rw [mergeText_take file n h t hs, hm1] at hm2
+    have hkt : k2.text = k1.text := by
+      have := Except.ok.inj hm2
+      exact (Prod.mk.inj this).1.symm
+    have e1 := (loadData_ok file h k1 L hd1).1
+    have e2 := (loadData_ok _ h k2 L' hd2).1
+    obtain ⟨h', db', de', hh', hoff', _, _, hlen⟩ := loaded_file_contains_declared_data _ L' hL'
+    rw [parseHeader_take file n h58, hh] at hh'; cases hh'
+    rw [e2, hkt, ← e1, hoff] at hoff'
+    cases hoff'
+    simp only [List.length_take] at hlen
+    omega
 
 /-! ### the premises are satisfiable: a complete 156-byte FCS2.0 file with two one-byte events (written by the harness's independent writer) -/
 
